@@ -1,8 +1,10 @@
 package harness
 
 import (
+	"encoding/json"
 	"fmt"
 	"regexp"
+	"strconv"
 	"strings"
 
 	"verifsim/sim/kern"
@@ -30,7 +32,45 @@ type lintCmp struct {
 }
 
 func cmpOf(r *LintResult) lintCmp {
-	return lintCmp{Stdout: r.Stdout, Exit: r.Exit, Errs: r.Errs, Fatal: r.Fatal != ""}
+	errs := r.Errs
+	if errs == nil && r.Stdout != "" {
+		// a run through Command.Main: the diagnostics are read back from what it printed, so that a
+		// difference is classified like one between two library calls
+		errs = parsePrinted(r.Stdout)
+	}
+	return lintCmp{Stdout: r.Stdout, Exit: r.Exit, Errs: errs, Fatal: r.Fatal != "" || r.Exit == 3}
+}
+
+var rePrinted = regexp.MustCompile(`^([^ \t|][^:]*):([0-9]+):([0-9]+): (.*) \[([a-z-]+)\]$`)
+
+// parsePrinted reads the diagnostics back from the output of the command (default, -oneline,
+// the line template and the JSON template used by the generator).
+func parsePrinted(out string) []ErrRec {
+	if strings.HasPrefix(out, "[") {
+		var js []struct {
+			Message  string `json:"message"`
+			Filepath string `json:"filepath"`
+			Line     int    `json:"line"`
+			Column   int    `json:"column"`
+			Kind     string `json:"kind"`
+		}
+		if json.Unmarshal([]byte(out), &js) == nil {
+			var es []ErrRec
+			for _, j := range js {
+				es = append(es, ErrRec{File: j.Filepath, Line: j.Line, Col: j.Column, Kind: j.Kind, Msg: j.Message})
+			}
+			return es
+		}
+	}
+	var es []ErrRec
+	for _, ln := range strings.Split(out, "\n") {
+		if m := rePrinted.FindStringSubmatch(ln); m != nil {
+			l, _ := strconv.Atoi(m[2])
+			c, _ := strconv.Atoi(m[3])
+			es = append(es, ErrRec{File: m[1], Line: l, Col: c, Kind: m[5], Msg: m[4]})
+		}
+	}
+	return es
 }
 
 // reCalleeDefect recognises the diagnostics about a local callee's OWN defects
@@ -175,7 +215,9 @@ func (c02) Eval(c *Chooser, env *Env) *Outcome {
 		mw.Files, mw.AbsArgs = mw.Files[:1], mw.AbsArgs[:1]
 	}
 	w := mw.World
+	viarepo := false
 	if env.Variant != "single" && c.Weighted("world.viarepo", 1, 6) {
+		viarepo = true
 		// no arguments: the files are found by walking .github/workflows of the repository of the cwd
 		w.API, w.Files, w.Cwd = APIRepo, []string{""}, mw.Repos[0].Root
 	}
@@ -188,6 +230,30 @@ func (c02) Eval(c *Chooser, env *Env) *Outcome {
 	case 3:
 		w.Opts.Format = "{{range $ := .}}{{$.Filepath}}:{{$.Line}}:{{$.Column}}: {{$.Message}} [{{$.Kind}}]\n{{end}}"
 	}
+	if env.Variant != "single" && w.API == APIFiles && c.Weighted("world.missingarg", 1, 12) {
+		// one argument names a file that does not exist: the run is fatal, and what it prints
+		// before that (nothing) is as much a function of the inputs as any other output
+		at := c.Int("world.missingargpos", len(w.Files)+1)
+		fs := append([]string{}, w.Files[:at]...)
+		fs = append(fs, mw.Repos[0].Root+"/.github/workflows/does-not-exist.yml")
+		w.Files = append(fs, w.Files[at:]...)
+		o.probe("missing_argument_file", 1)
+	}
+	if env.Variant != "single" && c.Weighted("world.viamain", 1, 4) {
+		// the same run through the command line entry point: flags, stdout and the exit status
+		args := []string{"-no-color"}
+		if w.Opts.Oneline {
+			args = append(args, "-oneline")
+		}
+		if w.Opts.Format != "" {
+			args = append(args, "-format", w.Opts.Format)
+		}
+		if w.API == APIFiles {
+			args = append(args, w.Files...)
+		}
+		w.API, w.Args = APIMain, args
+		o.probe("through_command_main", 1)
+	}
 	o.World = w
 	if kern.RaceLane {
 		// race lane: one concurrent run per world; the detector's log is read by the worker
@@ -197,7 +263,7 @@ func (c02) Eval(c *Chooser, env *Env) *Outcome {
 		o.Sig = w.Hash() ^ r.K.TraceHash
 		return o
 	}
-	kind := c.Int("world.variantkind", 7) // 0,1: schedule+map order; 2: + other CPU count; 3: repeated execution; 4: repeated call on one Linter; 5: another GOMAXPROCS
+	kind := c.Int("world.variantkind", 8) // 0,1: schedule+map order; 2: + other CPU count; 3: repeated execution; 4: repeated call on one Linter; 5: another GOMAXPROCS
 	r0 := RunLint(w, nil, RunOpts{Canonical: true})
 	o.addRun(r0.K)
 	if v := runFailure("C02", r0.K); v != nil {
@@ -219,6 +285,13 @@ func (c02) Eval(c *Chooser, env *Env) *Outcome {
 		ro.Repeat = 2
 		ro.ReuseLinter = true
 		desc += ", second call on the same Linter instance"
+	case 7:
+		// the Linter instance has linted a repository of the world before (a long-lived library user)
+		if w.API != APIMain {
+			ro.ReuseLinter = true
+			ro.PriorRepo = mw.Repos[c.Int("world.priorrepo", len(mw.Repos))].Root
+			desc += ", on a Linter instance that linted repository " + ro.PriorRepo + " before"
+		}
 	case 6:
 		// another moment: the wall clock of the run differs by some minutes / hours / days
 		ro.EpochOffset = []int64{60, 7 * 60, 25 * 60, 37 * 60, 40 * 60, 49 * 60, 3600*5 + 38*60, 86400 * 3, 86400*200 + 1234}[c.Int("world.epoch", 9)]
@@ -245,7 +318,7 @@ func (c02) Eval(c *Chooser, env *Env) *Outcome {
 	}
 	o.Digest = DigestOf(r0.Stdout, r0.Exit, r0.Errs, r1.Stdout, r1.Exit, r1.Errs)
 	if what, kinds := firstDiff(cmpOf(r0), cmpOf(r1)); what != "" {
-		if kinds == "callee-defect-attribution" && len(w.Files) == 1 && w.API != APIRepo {
+		if kinds == "callee-defect-attribution" && len(w.Files) == 1 && !viarepo {
 			// within one file the call site that reports a callee's defect is decided by the job
 			// visiting order, which is the source order: only multi-file runs may differ (known finding)
 			kinds = "callee-defect-attribution:single-file"
